@@ -8,17 +8,24 @@
     internal/server/rename.go       PrepareRename, Rename
     internal/server/definition.go   findDefinitionTarget, commodityTarget, allJournalsWithPaths,
                                     sortedJournalPaths, pathToURI
-    internal/server/hover.go        positionInRange, getPayeeOrDescription, estimatePayeeRange,
-                                    astRangeToProtocol
+    internal/server/hover.go        positionInRange, getPayeeOrDescription, estimatePayeeRange
+    internal/server/position.go     columnMapper (lineColumn, toProtocol, runePosition), fileMappers
     internal/server/server.go       resolvedWithPrimaryPath, workspaceResolvedFor, GetResolved
     internal/workspace/workspace.go Workspace.Contains
     internal/include/types.go       ResolvedJournal (Primary, Files, FileOrder)
-    internal/lsputil/mapper.go      UTF16Len (on valid UTF-8)
+    internal/lsputil/mapper.go      RuneOffsetToUTF16, UTF16OffsetToRuneOffset (on the lines of a
+                                    text, valid UTF-8: `List Char`); utf8.RuneCountInString
 
   as repaired by repo_patches/fix-references-rename.diff (primary journal labelled with its own
   path; commodities of costs, assertions and price directives searched; name ranges derived from
-  the name; cursor accepted on directives).  The lexer, parser and include loader are NOT
-  modelled here: the input is the resolved structure with real syntax trees.
+  the name; cursor accepted on directives) and by repo_patches/fix-utf16-positions.diff (the rune
+  columns of the trees are converted to UTF-16 characters with the lines of each file's text, the
+  cursor to a rune column; name lengths count runes).  The lexer, parser and include loader are
+  NOT modelled here: the input is the resolved structure with real syntax trees, plus the text
+  the `fileMappers` of `resolvedWithPrimaryPath` pick for every path (workspace view: the buffer
+  of an open document, else the file on disk; per-document view: the requesting document's
+  buffer, every other file from disk; no lines at all when there is no text — then columns are
+  passed on unchanged, which is also exactly what the code as pinned did for every file).
 
   Conventions.  Paths are strings; `pathToURI` (uri.File) and `uriToPath` are the identity on
   the path shapes of DESIGN 4.4 (the harness reports URIs as paths), so a location is
@@ -26,8 +33,12 @@
   Go `int → uint32` conversions are `toU32`.
 -/
 import HL.Model.Ast
+import HL.Model.Text
 namespace HL.Refs
 open HL HL.Ast
+
+/-- A `columnMapper`: the lines of the text (`strings.Split(content, "\n")`). -/
+abbrev Lines := List HL.Text.Txt
 
 abbrev Path := String
 
@@ -61,10 +72,25 @@ def ARange.ofRng (r : Rng) : ARange := ⟨r.start.line, r.start.col, r.stop.line
 /-- `uint32(n - 1)` for a Go `int` `n ≥ 0`. -/
 def u32pred (n : Nat) : Nat := if n = 0 then 4294967295 else (n - 1) % 4294967296
 
-/-- `astRangeToProtocol`: line−1 and column−1 are copied into line and character. -/
-def toLsp (r : ARange) : LRange := ⟨⟨u32pred r.sl, u32pred r.sc⟩, ⟨u32pred r.el, u32pred r.ec⟩⟩
+/-- `columnMapper.lineColumn`: the character is the UTF-16 length of the first `col − 1` runes
+    of the line; without that line the column is passed on (`uint32(col − 1)`). -/
+def convChar (lns : Lines) (line col : Nat) : Nat :=
+  if line = 0 then u32pred col else
+  match lns[line - 1]? with
+  | some ln => HL.Text.u16len (ln.take (col - 1)) % 4294967296
+  | none => u32pred col
 
-/-- `positionInRange`: both ends inclusive. -/
+/-- `columnMapper.toProtocol`. -/
+def toLsp (lns : Lines) (r : ARange) : LRange :=
+  ⟨⟨u32pred r.sl, convChar lns r.sl r.sc⟩, ⟨u32pred r.el, convChar lns r.el r.ec⟩⟩
+
+/-- `columnMapper.runePosition`: the cursor with its character counted in runes. -/
+def runePos (lns : Lines) (p : LPos) : LPos :=
+  match lns[p.line]? with
+  | some ln => ⟨p.line, HL.Text.takeU16 ln p.char⟩
+  | none => p
+
+/-- `positionInRange`: both ends inclusive; the cursor counts runes. -/
 def positionInRange (p : LPos) (r : ARange) : Bool :=
   let line := p.line + 1
   let col := p.char + 1
@@ -73,16 +99,15 @@ def positionInRange (p : LPos) (r : ARange) : Bool :=
   else if line == r.el && col > r.ec then false
   else true
 
-/-- `lsputil.UTF16Len` on a valid UTF-8 string: every rune contributes one unit, a rune of four
-    bytes (lead byte ≥ 0xF0) two.  Continuation bytes (0x80..0xBF) contribute nothing. -/
-def utf16Len : Bytes → Nat
+/-- `utf8.RuneCountInString` on a valid UTF-8 string: every byte that is not a continuation byte
+    (0x80..0xBF) starts a rune. -/
+def runeLen : Bytes → Nat
   | [] => 0
-  | b :: bs =>
-    (if b.toNat ≥ 0x80 && b.toNat < 0xC0 then 0 else if b.toNat ≥ 0xF0 then 2 else 1) + utf16Len bs
+  | b :: bs => (if b.toNat ≥ 0x80 && b.toNat < 0xC0 then 0 else 1) + runeLen bs
 
 /-- `nameRange`. -/
 def nameRange (start : Pos) (name : Bytes) : ARange :=
-  ⟨start.line, start.col, start.line, start.col + utf16Len name⟩
+  ⟨start.line, start.col, start.line, start.col + runeLen name⟩
 
 def accountNameRange (a : Account) : ARange := nameRange a.range.start a.name
 def directiveCommodityRange (c : Commodity) : ARange := nameRange c.range.start c.symbol
@@ -94,7 +119,7 @@ def payeeOrDescription (tx : Transaction) : Bytes :=
 /-- `estimatePayeeRange`. -/
 def estimatePayeeRange (tx : Transaction) (payee : Bytes) : ARange :=
   let startCol := tx.date.range.stop.col + 1 + (if tx.status != .none then 2 else 0)
-  ⟨tx.date.range.start.line, startCol, tx.date.range.start.line, startCol + utf16Len payee⟩
+  ⟨tx.date.range.start.line, startCol, tx.date.range.start.line, startCol + runeLen payee⟩
 
 /-- `postingCommodities`: amount, cost, assertion, in that order. -/
 def postingCommodities (p : Posting) : List Commodity :=
@@ -114,55 +139,59 @@ deriving Repr, DecidableEq, Inhabited, BEq
 
 /-! ### findDefinitionTarget -/
 
-def targetInPostings (pos : LPos) : List Posting → Option Target
+def targetInPostings (lns : Lines) (pos : LPos) : List Posting → Option Target
   | [] => none
   | p :: ps =>
     let ar := accountNameRange p.account
-    if positionInRange pos ar then some ⟨.account, p.account.name, toLsp ar⟩
+    if positionInRange pos ar then some ⟨.account, p.account.name, toLsp lns ar⟩
     else
       match (postingCommodities p).find? (fun c => c.symbol != [] && positionInRange pos (ARange.ofRng c.range)) with
-      | some c => some ⟨.commodity, c.symbol, toLsp (ARange.ofRng c.range)⟩
-      | none => targetInPostings pos ps
+      | some c => some ⟨.commodity, c.symbol, toLsp lns (ARange.ofRng c.range)⟩
+      | none => targetInPostings lns pos ps
 
-def targetInTxs (pos : LPos) : List Transaction → Option Target
+def targetInTxs (lns : Lines) (pos : LPos) : List Transaction → Option Target
   | [] => none
   | tx :: txs =>
     let payee := payeeOrDescription tx
     let pr := estimatePayeeRange tx payee
-    if payee != [] && positionInRange pos pr then some ⟨.payee, payee, toLsp pr⟩
-    else match targetInPostings pos tx.postings with
+    if payee != [] && positionInRange pos pr then some ⟨.payee, payee, toLsp lns pr⟩
+    else match targetInPostings lns pos tx.postings with
       | some t => some t
-      | none => targetInTxs pos txs
+      | none => targetInTxs lns pos txs
 
-def targetInDirective (pos : LPos) : Directive → Option Target
+def targetInDirective (lns : Lines) (pos : LPos) : Directive → Option Target
   | .account a _ _ _ _ =>
     let ar := accountNameRange a
-    if positionInRange pos ar then some ⟨.account, a.name, toLsp ar⟩ else none
+    if positionInRange pos ar then some ⟨.account, a.name, toLsp lns ar⟩ else none
   | .commodity c _ _ _ _ =>
     let r := directiveCommodityRange c
-    if c.symbol != [] && positionInRange pos r then some ⟨.commodity, c.symbol, toLsp r⟩ else none
+    if c.symbol != [] && positionInRange pos r then some ⟨.commodity, c.symbol, toLsp lns r⟩ else none
   | .price _ c p _ =>
     let r := directiveCommodityRange c
-    if c.symbol != [] && positionInRange pos r then some ⟨.commodity, c.symbol, toLsp r⟩
+    if c.symbol != [] && positionInRange pos r then some ⟨.commodity, c.symbol, toLsp lns r⟩
     else
       let pc := p.commodity
       if pc.symbol != [] && positionInRange pos (ARange.ofRng pc.range) then
-        some ⟨.commodity, pc.symbol, toLsp (ARange.ofRng pc.range)⟩
+        some ⟨.commodity, pc.symbol, toLsp lns (ARange.ofRng pc.range)⟩
       else none
   | _ => none
 
-def targetInDirectives (pos : LPos) : List Directive → Option Target
+def targetInDirectives (lns : Lines) (pos : LPos) : List Directive → Option Target
   | [] => none
-  | d :: ds => match targetInDirective pos d with
+  | d :: ds => match targetInDirective lns pos d with
     | some t => some t
-    | none => targetInDirectives pos ds
+    | none => targetInDirectives lns pos ds
 
-/-- `findDefinitionTarget`: transactions first (payee, then per posting account and
-    commodities), then directives. -/
-def findDefinitionTarget (j : Journal) (pos : LPos) : Option Target :=
-  match targetInTxs pos j.transactions with
+/-- The loops of `findDefinitionTarget` for a cursor that counts runes: transactions first
+    (payee, then per posting account and commodities), then directives. -/
+def findDefinitionTargetR (lns : Lines) (j : Journal) (pos : LPos) : Option Target :=
+  match targetInTxs lns pos j.transactions with
   | some t => some t
-  | none => targetInDirectives pos j.directives
+  | none => targetInDirectives lns pos j.directives
+
+/-- `findDefinitionTarget(journal, mapper, pos)`: `pos = mapper.runePosition(pos)` first. -/
+def findDefinitionTarget (lns : Lines) (j : Journal) (pos : LPos) : Option Target :=
+  findDefinitionTargetR lns j (runePos lns pos)
 
 /-! ### The journal map -/
 
@@ -206,34 +235,34 @@ def sortedPaths (m : JMap) : List Path := isort (fun a b => decide (a < b)) m.ke
 
 /-! ### The three searches -/
 
-def accountLocs (name : Bytes) (incl : Bool) (path : Path) (j : Journal) : List Loc :=
+def accountLocs (lns : Lines) (name : Bytes) (incl : Bool) (path : Path) (j : Journal) : List Loc :=
   (if incl then
     j.directives.filterMap fun d => match d with
-      | .account a _ _ _ _ => if a.name == name then some ⟨path, toLsp (accountNameRange a)⟩ else none
+      | .account a _ _ _ _ => if a.name == name then some ⟨path, toLsp lns (accountNameRange a)⟩ else none
       | _ => none
    else []) ++
   j.transactions.flatMap fun tx =>
     tx.postings.filterMap fun p =>
-      if p.account.name == name then some ⟨path, toLsp (accountNameRange p.account)⟩ else none
+      if p.account.name == name then some ⟨path, toLsp lns (accountNameRange p.account)⟩ else none
 
-def directiveCommodityLocs (symbol : Bytes) (incl : Bool) (path : Path) : Directive → List Loc
+def directiveCommodityLocs (lns : Lines) (symbol : Bytes) (incl : Bool) (path : Path) : Directive → List Loc
   | .commodity c _ _ _ _ =>
-    if incl && c.symbol == symbol then [⟨path, toLsp (directiveCommodityRange c)⟩] else []
+    if incl && c.symbol == symbol then [⟨path, toLsp lns (directiveCommodityRange c)⟩] else []
   | .price _ c p _ =>
-    (if c.symbol == symbol then [⟨path, toLsp (directiveCommodityRange c)⟩] else []) ++
-    (if p.commodity.symbol == symbol then [⟨path, toLsp (ARange.ofRng p.commodity.range)⟩] else [])
+    (if c.symbol == symbol then [⟨path, toLsp lns (directiveCommodityRange c)⟩] else []) ++
+    (if p.commodity.symbol == symbol then [⟨path, toLsp lns (ARange.ofRng p.commodity.range)⟩] else [])
   | _ => []
 
-def commodityLocs (symbol : Bytes) (incl : Bool) (path : Path) (j : Journal) : List Loc :=
-  j.directives.flatMap (directiveCommodityLocs symbol incl path) ++
+def commodityLocs (lns : Lines) (symbol : Bytes) (incl : Bool) (path : Path) (j : Journal) : List Loc :=
+  j.directives.flatMap (directiveCommodityLocs lns symbol incl path) ++
   j.transactions.flatMap fun tx =>
     tx.postings.flatMap fun p =>
       (postingCommodities p).filterMap fun c =>
-        if c.symbol == symbol then some ⟨path, toLsp (ARange.ofRng c.range)⟩ else none
+        if c.symbol == symbol then some ⟨path, toLsp lns (ARange.ofRng c.range)⟩ else none
 
-def payeeLocs (payee : Bytes) (path : Path) (j : Journal) : List Loc :=
+def payeeLocs (lns : Lines) (payee : Bytes) (path : Path) (j : Journal) : List Loc :=
   j.transactions.filterMap fun tx =>
-    if payeeOrDescription tx == payee then some ⟨path, toLsp (estimatePayeeRange tx payee)⟩ else none
+    if payeeOrDescription tx == payee then some ⟨path, toLsp lns (estimatePayeeRange tx payee)⟩ else none
 
 /-- The `less` of `sortAndDedup`: URI, then start line, then start character. -/
 def locLt (a b : Loc) : Bool :=
@@ -256,14 +285,21 @@ def collect (m : JMap) (f : Path → Journal → List Loc) : List Loc :=
     | some j => f p j
     | none => []
 
-/-- `findReferences`. -/
-def findReferences (kind : Kind) (name : Bytes) (resolved : Option Resolved) (primaryPath : Path)
+/-- `fileMappers`: the lines of the text of every path (`[]`: no text to be had). -/
+abbrev Texts := Path → Lines
+
+/-- The mapper that has no text for any file: columns are passed on unchanged, as the code as
+    pinned did. -/
+def noTexts : Texts := fun _ => []
+
+/-- `findReferences`; every file's locations are converted with `mappers.get(filePath)`. -/
+def findReferences (texts : Texts) (kind : Kind) (name : Bytes) (resolved : Option Resolved) (primaryPath : Path)
     (cur : Option Journal) (incl : Bool) : List Loc :=
   let m := journalsWithPaths resolved primaryPath cur
   match kind with
-  | .account => sortAndDedup (collect m (accountLocs name incl))
-  | .commodity => sortAndDedup (collect m (commodityLocs name incl))
-  | .payee => sortAndDedup (collect m (payeeLocs name))
+  | .account => sortAndDedup (collect m (fun p j => accountLocs (texts p) name incl p j))
+  | .commodity => sortAndDedup (collect m (fun p j => commodityLocs (texts p) name incl p j))
+  | .payee => sortAndDedup (collect m (fun p j => payeeLocs (texts p) name p j))
 
 /-! ### Handlers -/
 
@@ -275,6 +311,10 @@ structure Request where
   resolved : Option Resolved
   primaryPath : Path
   pos : LPos
+  /-- the lines of the requesting document's buffer (`newColumnMapper(doc)`) -/
+  curLines : Lines := []
+  /-- the `fileMappers` returned by `resolvedWithPrimaryPath` -/
+  texts : Texts := noTexts
 
 /-- `Workspace.Contains`: the path is the root journal or a key of `resolved.Files`. -/
 def wsContains (r : Resolved) (root : Path) (path : Path) : Bool :=
@@ -300,13 +340,13 @@ def pinnedResolvedWithPrimaryPath (ws : Option (Resolved × Path)) (own : Option
 
 /-- `Server.References`. -/
 def references (q : Request) (incl : Bool) : List Loc :=
-  match findDefinitionTarget q.curJournal q.pos with
+  match findDefinitionTarget q.curLines q.curJournal q.pos with
   | none => []
-  | some t => findReferences t.kind t.name q.resolved q.primaryPath (some q.curJournal) incl
+  | some t => findReferences q.texts t.kind t.name q.resolved q.primaryPath (some q.curJournal) incl
 
 /-- `Server.PrepareRename`. -/
 def prepareRename (q : Request) : Option LRange :=
-  (findDefinitionTarget q.curJournal q.pos).map (·.range)
+  (findDefinitionTarget q.curLines q.curJournal q.pos).map (·.range)
 
 structure TextEdit where
   range : LRange
@@ -323,10 +363,10 @@ def Changes.add (c : Changes) (p : Path) (e : TextEdit) : Changes :=
 
 /-- `Server.Rename`: `none` is the nil result. -/
 def rename (q : Request) (newName : Bytes) : Option Changes :=
-  match findDefinitionTarget q.curJournal q.pos with
+  match findDefinitionTarget q.curLines q.curJournal q.pos with
   | none => none
   | some t =>
-    let locs := findReferences t.kind t.name q.resolved q.primaryPath (some q.curJournal) true
+    let locs := findReferences q.texts t.kind t.name q.resolved q.primaryPath (some q.curJournal) true
     if locs.isEmpty then none
     else some (locs.foldl (fun c l => c.add l.path ⟨l.range, newName⟩) [])
 
